@@ -12,7 +12,7 @@
     support from the border (the closed form below holds as long as the support stays interior). *)
 From Coq Require Import List ZArith QArith Qcanon Reals Lia.
 From Inovesa Require Import Base.FieldKit Base.Float32 Base.RInst Base.Sums Gen.Gen_FPStencil
-  Model.FokkerPlanck Model.Moments2 Proofs.FokkerPlanckP Proofs.SpreadP Proofs.SpreadR
+  Model.FokkerPlanck Model.Moments2 Proofs.FPGridP Proofs.FokkerPlanckP Proofs.FPMomentsP Proofs.SpreadP Proofs.SpreadR
   Gen.Gen_Coeffs Model.Kick Proofs.KickP Proofs.KickGridP.
 Local Open Scope Z_scope.
 
